@@ -10,8 +10,10 @@ A *part* of a stream is a compact, JSON-able byte description (so that replays w
     {'cls': '<protocol>:<class>[:<variant>]', 'parts': [part...], 'zones': [offsets inside the frame worth cutting at],
      'delimited': bool,      # the frame's own length announcement covers exactly its bytes (the stream stays in sync after it)
      'wants': n}             # bytes (counted from the frame's start) the announcement can make a reader wait for (>= its length)
-Classes marked PENDING_TRIAGE are implemented but not generated unless asked for: they show candidate defects of the unchanged
-library that the coordinator is triaging.
+Classes marked PENDING_TRIAGE are implemented but not generated unless asked for (`pending_triage=True`, env VERIF_PENDING_TRIAGE=1 in
+C07): they show a candidate defect of the unchanged library that the coordinator is triaging — today only (ii-a), a FIX BodyLength far
+beyond anything that will ever arrive (the reader waits for ever while bytes keep arriving).  Classes marked MODEL_BOUNDARY are outside
+what the Lean model covers (oracle only).
 """
 SOH = b'\x01'
 
@@ -128,12 +130,7 @@ def soup_malformed(rng, to_client, pending_triage=False):
         for t in types:
             fillb = rng.choice([b'z', b' ', b'1', b'\x00'])
             parts = [lit(n.to_bytes(2, 'big') + bytes([t])), ['fill', fillb.hex(), n - 1]]
-            variable = t in SOUP_VARIABLE
-            if variable and n >= 0x8000 and not pending_triage:
-                # PENDING_TRIAGE (i): a legal data packet with length field >= 0x8000 is decoded with an empty payload ('!h' reads the
-                # length as signed).  The packet is still generated here — C07 looks at what happens to the *following* frames and
-                # to the session, never at this packet's payload
-                pass
+            variable = t in SOUP_VARIABLE      # (a legal data packet: its payload is compared by C03 / C12, here only what follows it matters)
             out.append(_mk(f'soup:big:{n:#06x}:{"var" if variable else chr(t) if t != 63 else "unknown"}', None,
                            (1, 2, 3, n // 2, n, n + 1), parts=parts))
     return out
@@ -211,8 +208,11 @@ def fix_malformed(rng, good_fields, ver=b'FIX.4.4', follow_len=0, pending_triage
         out.append(with_len(text, f'fix:bodylength-spelling:{v}', delimited=True))
     # --- BodyLength that int() rejects
     for text in rng.sample([b'', b'x', b'1x', b'--1', b'1 2', b'1e3', b'0x10', b'1.0', b'+', b'-', b'_1', b'1_', b'1__0', b'\xd9\xa1',
-                            b'\xef\xbc\x91', b'\x00', b'1\x00', b'9' * 5000], 8):
+                            b'\xef\xbc\x91', b'\x00', b'1\x00'], 8):
         out.append(with_len(text, 'fix:bodylength-nonnumeric'))
+    # more digits than CPython's int() converts (sys.int_max_str_digits = 4300): ValueError.  MODEL_BOUNDARY: Py/Dec.lean has no digit
+    # limit (the C03 theorems assume at most 4300 digits), so this class is run by the oracle only
+    out.append(with_len(b'9' * 5000, 'fix:bodylength-too-many-digits:MODEL_BOUNDARY'))
     # --- signed / zero BodyLength: total frame length = third_field_pos + n + 7 around 0, 1, < header, and beyond the buffer
     signed = [b'-0', b'0', b'-1', b'-5', b'-7', b'-8']
     for total in (0, 1, -1, 2, 5, hdr, hdr + 3):
@@ -262,10 +262,9 @@ def fix_malformed(rng, good_fields, ver=b'FIX.4.4', follow_len=0, pending_triage
         where = rng.choice(['after-type', 'end'])
         r2 = (b'35=' + ty + SOH + bad + SOH + after35) if where == 'after-type' else (rest + bad + SOH)
         out.append(with_rest(r2, cls))
-    # repeating-group count with missing members (small counts only; PENDING_TRIAGE (ii): a count of millions blocks the loop)
-    for cnt in ((2, 3) if not pending_triage else (2, 3, 2000000)):
-        out.append(with_rest(rest + b'22=%d' % cnt + SOH + b'553=x' + SOH,
-                             'fix:group-count-without-members' + (':PENDING_TRIAGE' if cnt > 1000 else '')))
+    # a count-like field of a dictionary the caller may or may not have (the callers' own group classes: sess_hostile.fix_group_classes)
+    for cnt in (2, 2000000):
+        out.append(with_rest(rest + b'22=%d' % cnt + SOH + b'553=x' + SOH, 'fix:group-count-without-members'))
     # --- trailer
     f = fix_frame_raw(ver, str(n).encode(), rest)
     out.append(_mk('fix:wrong-checksum', f[:-4] + (b'%03d' % ((int(f[-4:-1]) + 1) % 256)) + SOH, [len(f) - 7, len(f) - 1], delimited=True))
